@@ -509,6 +509,10 @@ def value_expr(path: Path, index: int, expr, depth: int = 12, keep_clock: bool =
                 return node
             pos, store = found
             value = store.data.get('value')
+            if value is None and store.data.get('aug') is None:
+                element = _loop_element(path, pos, store, depth, keep_clock, keep, trace)
+                if element is not None:
+                    return element
             if value is None or store.data.get('aug') is not None:
                 return node
             if isinstance(store.node, ast.Name) is False:
@@ -557,6 +561,33 @@ def value_expr(path: Path, index: int, expr, depth: int = 12, keep_clock: bool =
             return node
 
     return Sub().visit(tree)
+
+
+def _loop_element(path: Path, pos: int, store: Event, depth, keep_clock, keep, trace):
+    """the value a loop variable holds in this pass, when the loop walks a tuple/list
+    *display* (after expansion): pass k holds element k"""
+    loop = store.data.get('stmt')
+    if not isinstance(loop, (ast.For, ast.AsyncFor)) or store.node is not loop.target or \
+            pos == 0 or depth <= 0:
+        return None
+    start = path.events[pos - 1]
+    if start.kind != 'iter-next' or start.node is not loop:
+        return None
+    # number of this pass: iter-next events of the loop since it was (re-)entered
+    number = 0
+    for before in range(pos - 1, -1, -1):
+        event = path.events[before]
+        if event.node is loop and event.data.get('fid') == start.data.get('fid'):
+            if event.kind == 'iter-next':
+                number += 1
+            elif event.kind in ('iter-end', 'iter-stop'):
+                break
+    source = value_expr(path, pos - 1, loop.iter, depth - 1, keep_clock, keep, trace=trace)
+    if isinstance(source, (ast.Tuple, ast.List)) and not any(
+            isinstance(e, ast.Starred) for e in source.elts) and \
+            1 <= number <= len(source.elts):
+        return source.elts[number - 1]
+    return None
 
 
 _MUTATORS = frozenset((
